@@ -1220,8 +1220,10 @@ fn run_kind(prop: &str, kind: &'static str, rng_seed: u64, rounds: u32, replay_o
         };
         if let Some(b) = b {
             if !reports(prop, b.prop) {
+                // the tree is broken in a way another property's check reports; the rest of this
+                // experiment would only wait out its slack round after round
                 *part.labels.entry(format!("race_round_broke_{}_clause_left_to_its_own_check", b.prop)).or_default() += 1;
-                continue;
+                break;
             }
             let detail = if b.prop == prop { b.detail.clone() } else { format!("[{} rule] {}", b.prop, b.detail) };
             let path = write_replay(replay_out, prop, b.kind, &detail, serde_json::json!({"race": {"kind": kind, "seed": rng_seed, "rounds": rounds}}));
